@@ -197,7 +197,7 @@ def run(chk):
         "at the same sqfs_object_init site yields the set of slots it releases. H1 header initialised on every "
         "success path, H2 every released slot re-acquired (or null, or exempt under the same immutable-flag "
         "predicate), H3 no pointer slot keeps aliasing the original, no write/release through a bit-copied "
-        "pointer (error paths included); container copy helpers are analysed with the same engine (H4). H5-state: fields that the library accumulates over an object's life (x = x +/- k somewhere) are taken over by nodes that a copy hook allocates (whole-node copy or field read from the source). H7-state: a copy hook that builds its object member by member (no wholesale memcpy) reads every scalar member the library writes during use from the original. H6-paths: every success path of a container copy routine f(T *dst, const T *src) reads the same source fields. K9-copytag: a copy that takes the tag of a block cache over takes the payload over too (or resets the tag) H8-reopen: a copy hook opens no path and creates no file of its own; H9-initagree: a copy hook that sets a codec library state up passes the configuration values the constructor passes.")
+        "pointer (error paths included); container copy helpers are analysed with the same engine (H4). H5-state: fields that the library accumulates over an object's life (x = x +/- k somewhere) are taken over by nodes that a copy hook allocates (whole-node copy or field read from the source). H7-state: a copy hook that builds its object member by member (no wholesale memcpy) reads every scalar member the library writes during use from the original. H6-paths: every success path of a container copy routine f(T *dst, const T *src) reads the same source fields. K9-copytag: a copy that takes the tag of a block cache over takes the payload over too (or resets the tag). H8-reopen: a copy hook opens no path and creates no file of its own; H9-initagree: a copy hook that sets a codec library state up passes the configuration values the constructor passes.")
     chk.assumptions = [
         "library/codec functions behave as named in the tables of sa/copyflow.py (release / pure / writes-arg)",
         "behavioural equivalence of copy and original and leak freedom are not decided",
